@@ -490,6 +490,7 @@ impl<'r, 'gc> Cb<'r, 'gc> {
             born_at: self.ex.op_index,
             poisoned: false,
             drop_panicked: false,
+            leak_ok: false,
         };
         if let (Some(old), true) = (self.ex.w.by_addr.insert(addr, id), track::enabled()) {
             self.ex.viol("C01", "M-live", format!("fresh object {} allocated at the address of still-allocated object {}", id, old));
